@@ -386,7 +386,29 @@ pub fn run(ctx: &Ctx) -> (Spec, Report) {
             long.extend(t.iter().map(|s| s.to_string()));
             let mut short = vec!["-t".to_string()];
             short.extend(t.iter().map(|s| s.to_string()));
-            vec![("space-separated", long), ("short-option", short), ("comma-separated", vec![format!("--target-os={}", t.join(","))])]
+            let mut forms = vec![("space-separated", long), ("short-option", short), ("comma-separated", vec![format!("--target-os={}", t.join(","))])];
+            // the same set spelled with a repeated name in the middle, with an empty entry, and as several options:
+            // T is a set, none of these spellings may change it
+            let mut rep_list: Vec<String> = t.iter().map(|s| s.to_string()).collect();
+            rep_list.insert(rng.below(rep_list.len()) + 1, t[0].to_string());
+            if rep_list.len() > 2 {
+                let last = rep_list.len() - 1;
+                rep_list.swap(1, last); // a new name after the repetition
+            }
+            forms.push(("repeated-entry", vec![format!("--target-os={}", rep_list.join(","))]));
+            let mut rep_space = vec!["-t".to_string()];
+            rep_space.extend(rep_list.iter().cloned());
+            forms.push(("repeated-entry-space-separated", rep_space));
+            let mut with_empty: Vec<String> = t.iter().map(|s| s.to_string()).collect();
+            with_empty.insert(rng.below(with_empty.len() + 1), String::new());
+            forms.push(("empty-entry", vec![format!("--target-os={}", with_empty.join(","))]));
+            let mut several = vec![];
+            for x in t.iter() {
+                several.push("-t".to_string());
+                several.push(x.to_string());
+            }
+            forms.push(("one-option-per-name", several));
+            forms
         };
         for (fname, extra) in forms {
             let out = dir.join(format!("out-{fname}.ts"));
@@ -416,7 +438,7 @@ pub fn run(ctx: &Ctx) -> (Spec, Report) {
     let spec = Spec {
         level: "exploration",
         rule: format!(
-            "cfg expressions over any/all/not with leaves target_os=a|b|c, feature, unix: all {n3} expressions of depth <= 3 (depth 1 complete, deeper levels pair one deep child with a leaf in both child orders) x all 16 target lists over {{a,b,c,d}} x 5 attachment levels (file level: depth <= 2 in quick); thorough adds all {exhaustive_d4} depth-4 expressions over the reduced alphabet at type level (5 % at the other levels); plus {n_random} random depth-4 expressions incl. two deep children and 1-3 cfg attributes per element, and {n_cli} trees through the real binary with --target-os a b / -t a b / --target-os=a,b / no option; decision read from generated TypeScript; a cell is distinct by (level, expression shape, |T|, expected decision)"
+            "cfg expressions over any/all/not with leaves target_os=a|b|c, feature, unix: all {n3} expressions of depth <= 3 (depth 1 complete, deeper levels pair one deep child with a leaf in both child orders) x all 16 target lists over {{a,b,c,d}} x 5 attachment levels (file level: depth <= 2 in quick); thorough adds all {exhaustive_d4} depth-4 expressions over the reduced alphabet at type level (5 % at the other levels); plus {n_random} random depth-4 expressions incl. two deep children and 1-3 cfg attributes per element, and {n_cli} trees through the real binary with --target-os a b / -t a b / --target-os=a,b / a repeated name in the middle / an empty entry / one -t per name / no option; decision read from generated TypeScript; a cell is distinct by (level, expression shape, |T|, expected decision)"
         ),
         assumptions: vec![
             "the oracle is the rule as worded in the property: N = names under any not(...), P = the others, over all cfg attributes of the element".into(),
